@@ -88,10 +88,21 @@ theorem handle_delete {C : Type} [DecidableEq C] (cfg : Cfg) (cks : J → C) (ca
       (adel id cache, if shouldFire cfg .deleted then some ⟨.deleted, id, removeFull cfg e0⟩ else none) := by
   simp only [handle, ha]
 
-/-- A filter that fails on the object: the call returns before anything happens. -/
+/-- A filter that fails on the object: an Added/Modified change is dropped as a whole. -/
 theorem handle_filter_error {C : Type} [DecidableEq C] (cfg : Cfg) (cks : J → C) (cache : Cache C)
-    (ev : WatchEvent) (id : Nat) (obj : J) (ha : applyFilter cfg cks obj = none) :
+    (ev : WatchEvent) (id : Nat) (obj : J) (hev : ev ≠ .deleted) (ha : applyFilter cfg cks obj = none) :
     handle cfg cks cache ev id obj = (cache, none) := by
+  cases ev with
+  | deleted => exact absurd rfl hev
+  | added => simp only [handle, ha]
+  | modified => simp only [handle, ha]
+
+/-- … but a Deleted is still handled ("Delete is always fired"). -/
+theorem handle_delete_error {C : Type} [DecidableEq C] (cfg : Cfg) (cks : J → C) (cache : Cache C)
+    (id : Nat) (obj : J) (ha : applyFilter cfg cks obj = none) :
+    handle cfg cks cache .deleted id obj =
+      (adel id cache, if shouldFire cfg .deleted then
+        some ⟨.deleted, id, removeFull cfg { cks := cks .null, fr := some .null, obj := some obj }⟩ else none) := by
   simp only [handle, ha]
 
 theorem shouldFire_eq (cfg : Cfg) (e : WatchEvent) : shouldFire cfg e = decide (e ∈ cfg.types) := by
@@ -143,9 +154,18 @@ theorem handle_refines {C : Type} [DecidableEq C] (cfg : Cfg) (cks : J → C)
   cases hp : project cfg obj with
   | none =>
     have ha : applyFilter cfg cks obj = none := by rw [applyFilter_eq, hp]; rfl
-    rw [handle_filter_error cfg cks cache ev id obj ha]
-    simp only [Spec.step, hp]
-    exact ⟨rfl, hrel⟩
+    by_cases hev : ev = .deleted
+    · subst hev
+      rw [handle_delete_error cfg cks cache id obj ha]
+      simp only [Spec.step, hp]
+      refine ⟨?_, rel_adel cks cache known id hrel⟩
+      rw [shouldFire_eq]
+      by_cases h : WatchEvent.deleted ∈ cfg.types <;> simp [h]
+    · rw [handle_filter_error cfg cks cache ev id obj hev ha]
+      cases ev with
+      | deleted => exact absurd rfl hev
+      | added => simp only [Spec.step, hp]; exact ⟨rfl, hrel⟩
+      | modified => simp only [Spec.step, hp]; exact ⟨rfl, hrel⟩
   | some p =>
     have ha : applyFilter cfg cks obj = some
         { cks := cks p, fr := if cfg.filter.isSome then some p else none, obj := some obj } := by
@@ -187,7 +207,15 @@ theorem spec_step_known {S : J → Prop} (cfg : Cfg) (known : Spec.Known) (ev : 
     ∀ i q, aget i (Spec.step cfg known ev id obj).1 = some q → S q := by
   intro i q
   cases hpr : project cfg obj with
-  | none => simp only [Spec.step, hpr]; exact hk i q
+  | none =>
+    cases ev with
+    | deleted =>
+      simp only [Spec.step, hpr, aget_adel]
+      by_cases hi : i = id
+      · simp [hi]
+      · simp only [hi, if_false]; exact hk i q
+    | added => simp only [Spec.step, hpr]; exact hk i q
+    | modified => simp only [Spec.step, hpr]; exact hk i q
   | some p =>
     by_cases hev : ev = .deleted
     · subst hev
@@ -334,22 +362,31 @@ theorem cached_entry_shape {C : Type} (cfg : Cfg) (cks : J → C) (obj p : J) (e
 example : (aget 1 (handle { exCfg with types := [] } id [] .modified 1 (exObj 1 0)).1).map (fun e => (e.cks, e.fr, e.obj))
     = some (.num 1, some (.num 1), some (exObj 1 0)) := by decide
 
-/-- A Deleted change triggers whenever Deleted is listed (and the filter evaluates on the object),
-whatever the cache holds; the object leaves the cache. -/
+/-- A Deleted change triggers whenever Deleted is listed — for every object, every cache content and
+every filter, also one that fails on the object — and the object leaves the cache. -/
 theorem deleted_fires_iff {C : Type} [DecidableEq C] (cfg : Cfg) (cks : J → C) (cache : Cache C)
-    (id : Nat) (obj : J) (e : Entry C) (ha : applyFilter cfg cks obj = some e) :
+    (id : Nat) (obj : J) :
     ((handle cfg cks cache .deleted id obj).2.isSome = true ↔ WatchEvent.deleted ∈ cfg.types) ∧
     aget id (handle cfg cks cache .deleted id obj).1 = none := by
-  rw [handle_delete cfg cks cache id obj e ha, shouldFire_eq]
-  refine ⟨?_, by simp [aget_adel]⟩
-  by_cases h : WatchEvent.deleted ∈ cfg.types <;> simp [h]
+  cases ha : applyFilter cfg cks obj with
+  | some e =>
+    rw [handle_delete cfg cks cache id obj e ha, shouldFire_eq]
+    refine ⟨?_, by simp [aget_adel]⟩
+    by_cases h : WatchEvent.deleted ∈ cfg.types <;> simp [h]
+  | none =>
+    rw [handle_delete_error cfg cks cache id obj ha, shouldFire_eq]
+    refine ⟨?_, by simp [aget_adel]⟩
+    by_cases h : WatchEvent.deleted ∈ cfg.types <;> simp [h]
 
 /-- A change of one object never touches what is cached for another. -/
 theorem others_untouched {C : Type} [DecidableEq C] (cfg : Cfg) (cks : J → C) (cache : Cache C)
     (ev : WatchEvent) (id i : Nat) (obj : J) (hi : i ≠ id) :
     aget i (handle cfg cks cache ev id obj).1 = aget i cache := by
   cases ha : applyFilter cfg cks obj with
-  | none => rw [handle_filter_error cfg cks cache ev id obj ha]
+  | none =>
+    by_cases hev : ev = .deleted
+    · subst hev; rw [handle_delete_error cfg cks cache id obj ha]; simp [aget_adel, hi]
+    · rw [handle_filter_error cfg cks cache ev id obj hev ha]
   | some e =>
     by_cases hev : ev = .deleted
     · subst hev; rw [handle_delete cfg cks cache id obj e ha]; simp [aget_adel, hi]
@@ -373,17 +410,26 @@ theorem unrepaired_witness :
     ∧ project exCfg (exObj 1 0) ≠ project exCfg (exObj 2 0) := by decide
 
 
-/-- Scoping witness (the excluded point of the hypotheses `applyFilter … = some e` above, run on the
-real code by the harness as well): when the jq filter *fails* on the delivered state, the whole
-change is dropped — here a Deleted of a cached object emits nothing although Deleted is listed, and
-the object stays in the cache. The property text does not say what a failing filter means; this is
-recorded as a scoping note / candidate finding in notes/C08.md. -/
-theorem filter_error_drops_change :
+/-- Regression witness for the second repaired defect: the unrepaired code returned on every filter
+error — a Deleted of a cached object whose last state the filter fails on (`.spec.replicas.x`,
+replicas a number) emitted nothing although Deleted is listed, and the object stayed in the cache
+(in every snapshot) for ever. The repaired model reports it and forgets the object. -/
+theorem delete_with_failing_filter_witness :
     let cfg : Cfg := { types := [.deleted], filter := some (.path ["spec", "replicas", "x"]), keep := true }
     let good : J := .obj [("spec", .obj [])]
     let bad : J := .obj [("spec", .obj [("replicas", .num 1)])]
     let cache := (handle cfg id [] .added 1 good).1
-    (handle cfg id cache .deleted 1 bad).2.isSome = false ∧
-    (aget 1 (handle cfg id cache .deleted 1 bad).1).isSome = true := by decide
+    (handleUnrepaired cfg id cache .deleted 1 bad).2.isSome = false ∧
+    (aget 1 (handleUnrepaired cfg id cache .deleted 1 bad).1).isSome = true ∧
+    (handle cfg id cache .deleted 1 bad).2.isSome = true ∧
+    (aget 1 (handle cfg id cache .deleted 1 bad).1).isSome = false := by decide
+
+/-- Scoping note, kernel-checked: for an Added/Modified change whose state the filter fails on there
+is no projection to compare; the change is dropped as a whole (no event, the cache keeps the last
+state the filter could evaluate). The harness runs this point on the real code (corpus case 5). -/
+theorem failing_filter_upsert_ignored {C : Type} [DecidableEq C] (cfg : Cfg) (cks : J → C) (cache : Cache C)
+    (ev : WatchEvent) (id : Nat) (obj : J) (hev : ev ≠ .deleted) (hp : project cfg obj = none) :
+    handle cfg cks cache ev id obj = (cache, none) :=
+  handle_filter_error cfg cks cache ev id obj hev (by rw [applyFilter_eq, hp]; rfl)
 
 end ShellOp.Trigger.C08
